@@ -165,7 +165,7 @@ _pb("C13", "contract-based deductive verification (pyvc) of the mover steps of t
     "Each re-attachment step keeps links consistent, moves only the punctuation token, and (verylow) the real guard expression "
     "implies the old parent keeps a child. Where the tokens end up (the three documented postconditions) is bounded only.",
     "block contracts and guard lemma proved, placement postconditions bounded; 'other'")
-_pb("C15", "contract-based deductive verification (pyvc) of negra_mark_heads (nested loop invariants over the preorder/children contracts, heap frame on the head flag) and of transformconst.get_headpos_by_rule (four nested loops over a symbolic rule table, parse_label contract); bounded stand-in for mark_heads_by_rules as a whole",
+_pb("C15", "contract-based deductive verification (pyvc) of negra_mark_heads, of transformconst.get_headpos_by_rule (four nested loops over a symbolic rule table, parse_label contract) and of mark_heads_by_rules (preset selection with its ValueError clauses, marking loop over the preorder/children contracts, heap frame on the head flag); bounded cross-check on enumerated trees",
     "negra_mark_heads is proved for every well-formed tree: after the call every constituent below the argument has exactly the "
     "child selected by the NeGra heuristic (leftmost HD, else rightmost NK, else leftmost) marked as head and all other children "
     "marked as non-head, the root is unmarked, and only head flags are written. get_headpos_by_rule is proved for every rule "
@@ -173,8 +173,13 @@ _pb("C15", "contract-based deductive verification (pyvc) of negra_mark_heads (ne
     "function, index or head decorations); when exactly one child's category is listed in the head rules of the parent's "
     "category (before a rule with an empty priority list, which ends the search) that child is returned; with several listed "
     "the result is a listed child; with none it is the last / first child as the empty rule says, else the first; an "
-    "unknown parent category gives the default. mark_heads_by_rules (preset selection, the marking loop) is bounded only.",
-    "proof for negra_mark_heads and get_headpos_by_rule, bounded stand-in for the rule-based marker as a whole; 'other'")
+    "unknown parent category gives the default. mark_heads_by_rules is proved over that contract: ValueError exactly for "
+    "both / neither rule source, an unknown preset or a non-empty rule file name; otherwise the root is unmarked and every "
+    "constituent has exactly one child marked as head, all others as non-head, the marked position being one the contract of "
+    "get_headpos_by_rule allows for the table the parameters select (negra, ptb, or none). The two preset tables are large "
+    "constants and enter the proof as opaque dicts (only 'every rule names a known direction' is used).",
+    "every clause of the property is a discharged obligation; claimed as 'other' because the evidence also carries the "
+    "bounded cross-check and because str.lower / str.split / the ghost theory of well-formed trees are trusted")
 
 _pb("C01", "contract-based deductive verification (pyvc) of export_parse_line (field map, v3/v4 detection, raises clauses, gf_split over the contract of parse_label); bounded stand-in (independent decoders, exhaustive bracket token-class sequences) for the readers",
     "export_parse_line is proved for every line: the six fields are the whitespace-separated columns (dummy lemma inserted for "
